@@ -516,26 +516,47 @@ def _access(g, a, acc):
 
 
 class _Budget:
+    """Deterministic termination budget: counts Python function entries (sys.monitoring PY_START, the same thing the
+    'call' event of sys.setprofile counts, at a fraction of its cost: no return / c_call / c_return events). Once the
+    budget is spent *every* further function entry raises, so that no handler of the code under test can swallow it."""
+
+    TOOL = 2  # sys.monitoring.PROFILER_ID
+
     def __init__(self, budget):
         self.budget = budget
         self.calls = 0
 
-    def __call__(self, frame, event, arg):
-        if event == "call":
-            self.calls += 1
-            if self.calls > self.budget:
-                raise _Timeout()
+    def _on_start(self, code, offset):
+        self.calls += 1
+        if self.calls > self.budget:
+            raise _Timeout()
+
+    def __enter__(self):
+        mon = sys.monitoring
+        if mon.get_tool(self.TOOL) is None:
+            mon.use_tool_id(self.TOOL, "simgriffe-budget")
+        mon.register_callback(self.TOOL, mon.events.PY_START, self._on_start)
+        mon.set_events(self.TOOL, mon.events.PY_START)
+        return self
+
+    def __exit__(self, *exc):
+        mon = sys.monitoring
+        mon.set_events(self.TOOL, 0)
+        mon.register_callback(self.TOOL, mon.events.PY_START, None)
+        return False
 
 
 def _run_op(fn, budget_mode):
     """Run one operation under a CPU-time alarm (fast path) or under a deterministic Python-call budget."""
     if budget_mode:
+        mon = sys.monitoring
         b = _Budget(CALL_BUDGET)
-        sys.setprofile(b)
+        b.__enter__()
         try:
             return fn()
         finally:
-            sys.setprofile(None)
+            mon.set_events(_Budget.TOOL, 0)  # C calls only: no Python function is entered while the budget is armed
+            mon.register_callback(_Budget.TOOL, mon.events.PY_START, None)
     signal.setitimer(signal.ITIMER_VIRTUAL, OP_CPU_SECONDS)
     try:
         return fn()
@@ -942,7 +963,7 @@ class _Prop:
         "quick": {"runs": 50_000, "wall": 80, "det_n": 150, "shrink_s": 40},
         "thorough": {"runs": 500_000, "wall": 1100, "det_n": 1000, "shrink_s": 120},
     }
-    OPTS = {"chunk": 100, "chunk_wall": 300, "catch_kbi": True}
+    OPTS = {"chunk": 100, "chunk_wall": 600, "catch_kbi": True}
     REPLAY_IN_PARENT = True
     RULE = (
         "one run = one generated world of 1-3 packages (+ private sibling _p, unloaded ext, names that exist nowhere) "
